@@ -34,7 +34,9 @@ H_MRG = Harness('d_mrg', ['harness/d_meterreg.cc'], flags=SHIM, includes=SDK_INC
                 sdk_srcs=sdk_sources('common', 'resource', 'version', 'metrics'))
 HARNESSES = HARNESSES + [H_SYN, H_MRG]
 RULE = ('histories of 20-200 operations (create handle / Add / Collect; 8% of them with real-thread `race` operations: 1-4 recorder threads against a collecting thread) on a real MeterProvider with 1-3 explicit readers of '
-        'mixed temporality, 0-3 views, 1-3 instrument names x {counter, up-down} x {long, double}, several handles per '
+        'mixed temporality (a quarter of the histories: readers that select the temporality by instrument type, readers added with a MetricFilter, '
+        'provider ForceFlush / Shutdown in between), 0-3 views (every third with a description), 1-3 instrument names x {counter, up-down} x {long, double} created through the '
+        '(name) / (name, description) / (name, description, unit) forms, several handles per '
         'instrument, attribute sets from a pool of 6; every collection output of model and implementation compared, and the '
         'property evaluated on the implementation output by an independent reference. non-trivial = the history has at '
         'least one Add and two collections; distinct = distinct case line')
@@ -44,6 +46,41 @@ ASSUMPTIONS = ['attribute-set canonicalisation, attribute filters and the cardin
                'the set of readers is fixed before the first instrument is created']
 
 KINDS = ['cl', 'cd', 'ul', 'ud']
+READER_RE = re.compile(r'[DCPQ](~[0-2])?')
+
+
+def rtemp(tok, kind):
+    """temporality reader `tok` asks for, for an instrument of `kind`: D / C for every type, P = delta for Counter and
+    cumulative for UpDownCounter, Q the other way round (a selector by instrument type)"""
+    m = tok[0]
+    if m in 'DC':
+        return m
+    counter = kind[0] == 'c'
+    return ('D' if counter else 'C') if m == 'P' else ('C' if counter else 'D')
+
+
+def rfilter(tok):
+    """mode of the MetricFilter the reader was added with (None: the plain AddMetricReader(reader))"""
+    return int(tok[2]) if len(tok) == 3 else None
+
+
+def stream_digit(views, name, kind, j):
+    """last digit of the exported stream name: v<g> of the j-th matching view, i<name> under the default view"""
+    idx = [g for g, (n, t) in enumerate(views) if str(n) == name and t == kind[0]]
+    return idx[j] % 10 if j < len(idx) else int(name.split(':')[-1]) % 10
+
+
+def filtered(flt, digit, want):
+    """what a reader with filter mode `flt` is to be given of a stream whose points would be `want`:
+    (verdict 'accept' | 'drop' | 'partial', the points it may see)"""
+    if flt is None:
+        return 'accept', want
+    x = (digit + flt) % 3
+    if x == 0:
+        return 'accept', want
+    if x == 1:
+        return 'drop', {}
+    return 'partial', {a: v for a, v in want.items() if (int(a) + flt) % 2 == 0}
 
 
 def line(cfg_readers, views, ops):
@@ -72,7 +109,26 @@ def corpus():
     c(line(['D', 'C'], [], ['create 0 cl', 'add 0 3 5', 'race 0 3 500 0 10', 'collect 1', 'add 0 1 2', 'collect 0', 'collect 1']), 'race')
     c(line(['D'], [], ['create 0 ud', 'create 1 cl', 'add 1 2 7', 'add 0 1 -3', 'race 0 4 300 0 8', 'add 0 1 1', 'add 1 2 1', 'collect 0']), 'race')
     c(line(['C', 'D'], [(0, 'c'), (0, 'c')], ['create 0 cd', 'race 0 2 1000 0 20', 'collect 1', 'race 0 1 10 1 2', 'collect 0']), 'race')
+    # temporality selected by instrument type (P: counters delta, up-down counters cumulative; Q the other way round)
+    c(line(['P'], [], ['create 0 cl', 'create 0 ul', 'add 0 1 5', 'add 1 1 -3', 'collect 0', 'add 0 1 2', 'add 1 1 -1', 'collect 0', 'collect 0']), 'temporality-by-type')
+    c(line(['Q', 'P', 'D'], [(0, 'c')], ['create 0 cd', 'create 1 ud', 'add 0 2 7', 'add 1 0 -7', 'collect 1', 'collect 0', 'add 0 2 1', 'add 1 3 4', 'collect 2', 'collect 0', 'collect 1']), 'temporality-by-type')
+    c(line(['P', 'C'], [], ['create 0 ul', 'create 1 cl', 'add 1 1 1', 'race 1 2 200 0 6', 'race 0 2 100 0 3', 'collect 1', 'collect 0']), 'temporality-by-type')
+    # a MetricFilter on a reader (AddMetricReader(reader, filter)): drop / accept / accept-partial by stream, other readers unaffected
+    c(line(['D~0', 'C'], [], ['create 0 cl', 'create 1 cl', 'create 2 cl', 'add 0 1 5', 'add 1 1 6', 'add 2 1 7', 'add 2 2 8', 'collect 0', 'collect 1', 'add 2 2 1', 'add 2 4 1', 'collect 0', 'collect 1']), 'metric-filter')
+    c(line(['C~1', 'D~2', 'D'], [(0, 'c'), (0, 'c'), (1, 'u')], ['create 0 cl', 'create 1 ud', 'add 0 0 5', 'add 0 3 1', 'add 1 2 -6', 'collect 0', 'collect 1', 'collect 2', 'add 0 0 1', 'add 1 1 1', 'collect 1', 'collect 0', 'collect 2']), 'metric-filter')
+    c(line(['D~2'], [], ['create 0 cl', 'add 0 1 5', 'collect 0', 'add 0 2 5', 'collect 0', 'add 0 2 1', 'collect 0']), 'metric-filter')
+    # two meters under one provider: equally named instruments are different instruments, the views select meter m only, every collection takes both
+    c(line(['D', 'C'], [(0, 'c'), (0, 'c')], ['create 0 cl', 'create 0 cl n', 'create 1 ud n', 'add 0 1 5', 'add 1 1 7', 'add 2 0 -2', 'collect 0', 'add 1 1 1', 'collect 1', 'create 0 cl n', 'add 3 1 100', 'collect 0', 'collect 1']), 'two-meters')
+    c(line(['P~1'], [], ['create 2 cl n', 'create 2 ul n', 'create 2 cl', 'add 0 2 5', 'add 1 2 6', 'add 2 2 7', 'collect 0', 'race 0 2 100 0 3', 'collect 0']), 'two-meters')
+    c('met cfg D - ; create 0 cl m', 'malformed')
+    # ForceFlush / Shutdown of the provider take nothing away; readers may go on collecting
+    c(line(['D', 'C'], [(0, 'c'), (0, 'c'), (0, 'c')], ['create 0 cl', 'add 0 1 5', 'flush', 'collect 0', 'add 0 1 2', 'shutdown', 'add 0 2 1', 'collect 1', 'collect 0', 'shutdown', 'flush', 'collect 0']), 'flush-shutdown')
+    # every instrument-creation form (name) / (name, description) / (name, description, unit), views with a description
+    c(line(['C'], [(0, 'c'), (1, 'c'), (2, 'c'), (2, 'u')], ['create 0 cl', 'create 0 cd', 'create 1 cl', 'create 1 ul', 'create 2 cl', 'create 2 ud', 'create 2 ul', 'add 0 1 1', 'add 1 1 1', 'add 2 1 1', 'add 3 1 1', 'add 4 1 1', 'add 5 1 1', 'add 6 1 1', 'collect 0']), 'descriptor-forms')
     # malformed
+    c('met cfg D~3 - ; create 0 cl', 'malformed')
+    c('met cfg D~ - ; create 0 cl', 'malformed')
+    c('met cfg D - ; create 0 cl ; flush 1', 'malformed')
     c('met cfg D - ; add 0 1 5', 'malformed')
     c('met cfg X - ; create 0 cl', 'malformed')
     c('met cfg D - ; create 0 cl ; collect 1', 'malformed')
@@ -80,11 +136,14 @@ def corpus():
     return out
 
 
-def gen_history(rng, nops, shape, shape_race=False):
+def gen_history(rng, nops, shape, shape_race=False, widen=False):
     nr = rng.choice([1, 1, 2, 2, 3]) if shape != 'single' else 1
     readers = [rng.choice('DC') for _ in range(nr)]
     if shape == 'single-delta':
         readers = ['D']
+    if widen:
+        # a quarter of the histories: temporality selectors by instrument type and / or MetricFilters on some readers
+        readers = [(rng.choice('PQ') if rng.random() < 0.5 else t) + (f'~{rng.randrange(3)}' if rng.random() < 0.4 else '') for t in readers]
     names = rng.choice([1, 1, 2, 3])
     views = []
     if rng.random() < 0.5:
@@ -96,15 +155,21 @@ def gen_history(rng, nops, shape, shape_race=False):
     pcollect = rng.choice([0.1, 0.25, 0.5])
     pcreate = rng.choice([0.02, 0.05, 0.15])
     prace = 0.03 if shape_race else 0.0
+    pctl = 0.02 if widen else 0.0
+    two_meters = widen and rng.random() < 0.5      # some instruments live on a second meter of the provider
     for _ in range(nops):
         r = rng.random()
+        if pctl and rng.random() < pctl:
+            ops.append(rng.choice(['flush', 'flush', 'shutdown']))
+            continue
         if handles and rng.random() < prace:
             ops.append(f'race {rng.randrange(len(handles))} {rng.randrange(1, 5)} {rng.choice([1, 50, 200, 600])} {rng.randrange(nr)} {rng.choice([1, 2, 5, 12])}')
             continue
         if not handles or r < pcreate:
             k = rng.choice(KINDS) if rng.random() < 0.6 or not handles else rng.choice(handles)[1]
             n = rng.randrange(names) if rng.random() < 0.6 or not handles else rng.choice(handles)[0]
-            ops.append(f'create {n} {k}')
+            on_n = two_meters and rng.random() < 0.4
+            ops.append(f'create {n} {k}' + (' n' if on_n else ''))
             handles.append((n, k))
         elif r < pcreate + pcollect:
             ops.append(f'collect {rng.randrange(nr)}')
@@ -194,8 +259,9 @@ def _generate(rng, tier):
         shape = rng.choice(['mixed', 'mixed', 'mixed', 'single', 'single-delta'])
         nops = rng.choice([20, 40, 80, 120, 200])
         race = rng.random() < 0.08
-        out.append(Case(gen_history(rng, nops if not race else min(nops, 80), shape, race), H,
-                        ('history', shape, f'ops<={nops}') + (('real-thread-race',) if race else ())))
+        widen = i % 4 == 3
+        out.append(Case(gen_history(rng, nops if not race else min(nops, 80), shape, race, widen), H,
+                        ('history', shape, f'ops<={nops}') + (('real-thread-race',) if race else ()) + (('selectors/filters/flush',) if widen else ())))
     # a reader that lags far behind another one: reader 0 collects after every measurement, the others only at the end (or
     # once in the middle) - nothing recorded in between may be taken away from the late reader, however many of the other
     # reader's collections have gone by (lengths around powers of two and well beyond a hundred)
@@ -299,20 +365,28 @@ def oracle(case, out):
     readers = cfg[1].split(',')
     views = [] if cfg[2] == '-' else [(int(x.split(':')[0]), x.split(':')[1]) for x in cfg[2].split(',')]
     nr = len(readers)
-    handles = []                       # (name, kind)
+    handles = []                       # (name, kind); name = "3" on meter m, "n:3" on the second meter n (no view selects that meter)
     total = {}                         # (name, kind) -> {a: running total}
     since = [dict() for _ in range(nr)]  # per reader: (name, kind) -> {a: sum since its last collection}
     last_end = [dict() for _ in range(nr)]  # per reader: label -> end stamp of the last MetricData
     ncollect = 0
 
     def nstreams(name, kind):
-        m = sum(1 for (n, t) in views if n == name and t == kind[0])
+        m = sum(1 for (n, t) in views if str(n) == name and t == kind[0])
         return m if m else 1
+
+    mystamps = [set() for _ in range(nr)]   # per reader: the stamps of its own collections
+
+    def stamp_no(x):
+        return 0 if x == 'sdk' else int(x[1:]) if x[1:].isdigit() else -1
 
     for op, ob in zip(ops[1:], obs[1:]):
         t = op.split(' ')
-        if t[0] == 'create':
-            handles.append((int(t[1]), t[2]))
+        if t[0] in ('flush', 'shutdown'):
+            if ob != 'ok':
+                return (f'provider-{t[0]}-succeeds', ob)
+        elif t[0] == 'create':
+            handles.append((('n:' if len(t) == 4 else '') + t[1], t[2]))
             if ob != f'h{len(handles) - 1}':
                 return ('create-returns-a-handle', ob)
         elif t[0] == 'add':
@@ -355,16 +429,22 @@ def oracle(case, out):
                 if label not in streams:
                     return ('only-configured-streams', f'{label} in race summary')
             for label, key in streams.items():
-                want = since[r].get(key, {}) if readers[r] == 'D' else total.get(key, {})
+                want = since[r].get(key, {}) if rtemp(readers[r], key[1]) == 'D' else total.get(key, {})
+                verdict, want = filtered(rfilter(readers[r]), stream_digit(views, key[0], key[1], int(label.split('.')[2])), want)
+                if verdict == 'drop' and label in got:
+                    return ('metric-filter-drops-the-stream', f'{label} in race summary of reader {r} ({readers[r]})')
                 pts = got.get(label, {})
                 for a in set(want) | set(pts):
+                    if verdict == 'partial' and a not in want:
+                        return ('metric-filter-keeps-only-accepted-attribute-sets', f'race by reader {r} ({readers[r]}) stream {label}: attrs {a} reported')
                     if pts.get(a, '0') != str(want.get(a, 0)):
                         return ('recorded-concurrently-with-collections',
                                 f'race by reader {r} ({readers[r]}) stream {label} attrs {a}: readers received {pts.get(a, "0")}, recorded {want.get(a, 0)}')
             first, last = ncollect + 1, ncollect + K + 1
             ncollect += K + 1
-            if readers[r] == 'D':
-                for label, key in streams.items():
+            mystamps[r].update(f'#{k}' for k in range(first, last + 1))
+            for label, key in streams.items():
+                if rtemp(readers[r], key[1]) == 'D':
                     if label in got:
                         # the stream of the raced handle reports in the last collection; on the single-reader fast path any
                         # other stream reported (if at all) in the first one, which took what was pending before the race
@@ -393,13 +473,20 @@ def oracle(case, out):
             for label in got:
                 if label not in streams:
                     return ('only-configured-streams', f'{label} in collection {stamp}')
+            flt = rfilter(readers[r])
             for label, (name, kind) in streams.items():
                 many_handles = sum(1 for h in handles if h == (name, kind)) > 1
                 many_streams = nstreams(name, kind) > 1
                 md = got.get(label)
                 pts = md[3] if md else {}
-                want = since[r].get((name, kind), {}) if readers[r] == 'D' else total.get((name, kind), {})
+                rt = rtemp(readers[r], kind)        # the temporality this reader asks for, for this instrument type
+                want = since[r].get((name, kind), {}) if rt == 'D' else total.get((name, kind), {})
+                verdict, want = filtered(flt, stream_digit(views, name, kind, int(label.split('.')[2])), want)
+                if verdict == 'drop' and md:
+                    return ('metric-filter-drops-the-stream', f'{label} given to reader {r} ({readers[r]}) in collection {stamp}')
                 for a in set(want) | set(pts):
+                    if verdict == 'partial' and a not in want:
+                        return ('metric-filter-keeps-only-accepted-attribute-sets', f'collection {stamp} by reader {r} ({readers[r]}) stream {label}: attrs {a} reported')
                     g = pts.get(a, '0')
                     w = want.get(a, 0)
                     if g != str(w):
@@ -408,23 +495,29 @@ def oracle(case, out):
                         elif many_streams:
                             cl = 'every-view-stream-counts'
                         else:
-                            cl = 'delta-interval-exact' if readers[r] == 'D' else 'cumulative-running-total'
+                            cl = 'delta-interval-exact' if rt == 'D' else 'cumulative-running-total'
                         return (cl, f'collection {stamp} by reader {r} ({readers[r]}) stream {label} attrs {a}: got {g}, '
-                                    f'recorded {"in its interval" if readers[r] == "D" else "in total"} {w}')
+                                    f'recorded {"in its interval" if rt == "D" else "in total"} {w}')
                 if md:
                     T, start, end, _ = md
-                    if T != readers[r]:
+                    if T != rt:
                         return ('temporality-of-the-reader', f'{label}: {T} for reader {r} ({readers[r]})')
                     if end != stamp:
                         return ('interval-ends-at-collection', f'{label}: end {end} in collection {stamp}')
-                    if readers[r] == 'C':
+                    if rt == 'C':
                         if start != 'sdk':
                             return ('cumulative-starts-at-sdk-start', f'{label}: start {start} in collection {stamp}')
                     else:
                         exp = last_end[r].get(label, 'sdk')
-                        if start != exp:
-                            return ('delta-intervals-abut', f'{label}: reader {r} start {start} in collection {stamp}, previous point ended at {exp}')
+                        if flt is None or verdict == 'accept':
+                            if start != exp:
+                                return ('delta-intervals-abut', f'{label}: reader {r} start {start} in collection {stamp}, previous point ended at {exp}')
+                        elif not ((start == 'sdk' or start in mystamps[r]) and stamp_no(start) >= stamp_no(exp)):
+                            # a partially accepted stream is withheld from the reader when no accepted attribute set has a point:
+                            # its next point starts at one of this reader's own collections, not before the last point it was given
+                            return ('delta-intervals-abut', f'{label}: reader {r} start {start} in collection {stamp}: not a collection of this reader at or after {exp}')
                     last_end[r][label] = end
+            mystamps[r].add(stamp)
             since[r] = {}
         else:
             return ('bad-case', op)
@@ -438,7 +531,7 @@ def bad_case(ops):
         if len(cfg) != 3 or cfg[0] != 'cfg':
             return True
         readers = cfg[1].split(',')
-        if not readers or len(readers) > 4 or any(r not in ('D', 'C') for r in readers):
+        if not readers or len(readers) > 4 or any(not READER_RE.fullmatch(r) for r in readers):
             return True
         if cfg[2] != '-':
             vs = cfg[2].split(',')
@@ -451,7 +544,7 @@ def bad_case(ops):
         handles = []
         for op in ops[1:]:
             t = op.split(' ')
-            if t[0] == 'create' and len(t) == 3:
+            if t[0] == 'create' and (len(t) == 3 or (len(t) == 4 and t[3] == 'n')):
                 if not t[1].isdigit() or int(t[1]) >= 8 or t[2] not in KINDS:
                     return True
                 handles.append(t[2])
@@ -466,6 +559,8 @@ def bad_case(ops):
             elif t[0] == 'collect' and len(t) == 2:
                 if not t[1].isdigit() or int(t[1]) >= len(readers):
                     return True
+            elif t[0] in ('flush', 'shutdown') and len(t) == 1:
+                pass
             elif t[0] == 'race' and len(t) == 6:
                 if not all(x.isdigit() for x in t[1:]):
                     return True
